@@ -383,11 +383,7 @@ def harvest_types(steps=1):
           m.opt.broadphase = {0: 1, 1: 2}.get(len(vname) % 2, 1)
         d = mjw.make_data(mjm, nworld=2)
         with trace_c32.TraceRun(m, d):
-          try:
-            mjw.step(m, d)
-          except Exception:
-            if mname != "sap":
-              raise
+          mjw.step(m, d)
   finally:
     for mod, k, v in patched:
       setattr(mod, k, v)
@@ -500,6 +496,7 @@ def unit_hashmodel(ctx):
     if s.check() != z3.sat:
       ctx.error("key evaluator: concrete evaluation unsat")
       continue
+    warp_util._KERNEL_CACHE.pop(real_key, None)  # (-1,) and (-2,) really share a key
     mk = tuple(kh.mval(s.model(), t) for t in key)
     if mk != tuple(real_key):
       ctx.error(f"key evaluator disagrees with the real cache_kernel wrapper on {case}: model {mk}, real {real_key}")
